@@ -233,13 +233,20 @@ def _scan_chain(loop: ast.For, seq):
     return chain
 
 
-def _unroll_block(stmts, lits):
-    """lits: name -> literal sequence node still valid at this point"""
+def _attr_table(node, attrs):
+    """the class-level table read by `self.T` / `cls.T` / `<Class>.T` (attrs: {(receiver name, T): literal sequence}), or None"""
+    if attrs and isinstance(node, ast.Attribute) and isinstance(node.value, ast.Name):
+        return attrs.get((node.value.id, node.attr))
+    return None
+
+
+def _unroll_block(stmts, lits, attrs=None):
+    """lits: name -> literal sequence node still valid at this point;  attrs: (receiver, attribute) -> class-level literal table"""
     out = []
     lits = dict(lits)
     for st in stmts:
         if isinstance(st, ast.For):
-            seq = _literal_seq(st.iter) or (lits.get(st.iter.id) if isinstance(st.iter, ast.Name) else None)
+            seq = _literal_seq(st.iter) or (lits.get(st.iter.id) if isinstance(st.iter, ast.Name) else None) or _attr_table(st.iter, attrs)
             if seq is not None:
                 body_st = _stored(st.body)
                 free = set().union(*[_loaded(e) for e in seq.elts]) if seq.elts else set()
@@ -250,7 +257,7 @@ def _unroll_block(stmts, lits):
                     if un is None:
                         un = _unroll_one(st, seq)
                     if un is not None:
-                        un = _unroll_block(un, lits)
+                        un = _unroll_block(un, lits, attrs)
                         for u in un:
                             ast.fix_missing_locations(u)
                         out.extend(un)
@@ -261,10 +268,10 @@ def _unroll_block(stmts, lits):
         for fld in ("body", "orelse", "finalbody"):
             b = getattr(st, fld, None)
             if isinstance(b, list) and b and isinstance(b[0], ast.stmt) and not isinstance(st, (ast.FunctionDef, ast.ClassDef, ast.AsyncFunctionDef)):
-                setattr(st, fld, _unroll_block(b, surviving))
+                setattr(st, fld, _unroll_block(b, surviving, attrs))
         if isinstance(st, ast.Try):
             for h in st.handlers:
-                h.body = _unroll_block(h.body, surviving)
+                h.body = _unroll_block(h.body, surviving, attrs)
         # update the table
         for k in list(lits):
             if k in inner_st or (set().union(*[_loaded(e) for e in lits[k].elts]) & inner_st):
@@ -307,7 +314,79 @@ def module_tables(mod: ast.Module) -> dict:
             and not (set().union(*[_loaded(e) for e in v.elts]) & set(cand))}
 
 
-def unroll_static_loops(func, tables: dict | None = None):
+def class_tables(cls: ast.ClassDef, mod: ast.Module | None = None) -> dict:
+    """attribute name -> literal tuple/list bound exactly once in the class body (pure elements that mention no name bound in the
+    class body), which nothing in the module re-binds or mutates through an attribute access (`x.T = ..`, `x.T[i] = ..`,
+    `x.T.append(..)`, `del x.T`, setattr/delattr with that name or a computed name on anything): a loop `for a, b in self.T`
+    inside a method of the class is as static as one over a local literal (unroll_static_loops).  A subclass that overrides T in
+    ANOTHER module is not seen -- the methods are then analysed for the class that defines them."""
+    cand, count = {}, {}
+    body_names = set()
+    for st in cls.body:
+        if isinstance(st, (ast.FunctionDef, ast.AsyncFunctionDef, ast.ClassDef)):
+            body_names.add(st.name)
+            continue
+        for n in ast.walk(st):
+            if isinstance(n, ast.Name) and isinstance(n.ctx, (ast.Store, ast.Del)):
+                count[n.id] = count.get(n.id, 0) + 1
+                body_names.add(n.id)
+        if isinstance(st, ast.Assign) and len(st.targets) == 1 and isinstance(st.targets[0], ast.Name):
+            seq = _literal_seq(st.value)
+            if seq is not None and all(_pure(e) for e in seq.elts):
+                cand[st.targets[0].id] = seq
+    cand = {k: v for k, v in cand.items() if count.get(k, 0) == 1 and not (set().union(*[_loaded(e) for e in v.elts]) & body_names)}
+    if not cand:
+        return {}
+    bad, via = set(), set()
+    for n in ast.walk(mod if mod is not None else cls):
+        if isinstance(n, ast.Attribute) and isinstance(n.ctx, (ast.Store, ast.Del)):
+            bad.add(n.attr)
+        elif isinstance(n, ast.Call) and isinstance(n.func, ast.Attribute) and isinstance(n.func.value, ast.Attribute) and n.func.attr in MUTATORS:
+            bad.add(n.func.value.attr)
+        elif isinstance(n, ast.Subscript) and isinstance(n.ctx, (ast.Store, ast.Del)) and isinstance(n.value, ast.Attribute):
+            bad.add(n.value.attr)
+        elif isinstance(n, ast.Call) and isinstance(n.func, ast.Name) and n.func.id in ("setattr", "delattr") and len(n.args) >= 2:
+            names = _const_choices(n.args[1], cls, mod)
+            if names is None:
+                return {}                 # an attribute name that is computed: anything may be re-bound
+            bad |= names[0]
+            via |= names[1]
+        elif isinstance(n, ast.ClassDef) and n is not cls:
+            # a subclass in the same module that re-defines the attribute: `self.T` depends on the instance's class
+            for st in n.body:
+                for t in (st.targets if isinstance(st, ast.Assign) else [st.target] if isinstance(st, (ast.AnnAssign, ast.AugAssign)) else []):
+                    if isinstance(t, ast.Name):
+                        bad.add(t.id)
+    if via & bad:
+        return {}                         # the table an attribute name is looked up in is itself re-bound / mutated
+    return {k: v for k, v in cand.items() if k not in bad}
+
+
+def _const_choices(node, cls: ast.ClassDef, mod):
+    """the finite set of strings an attribute-name expression can evaluate to: a literal, or a lookup `T[k]` / `T.get(k)` in a
+    class-level dict display `T` (read as self.T / cls.T / <Class>.T) whose values are all string literals.
+    -> (names, {T}) or None when the expression is anything else"""
+    if isinstance(node, ast.Constant):
+        return ({node.value}, set()) if isinstance(node.value, str) else None
+    tab = None
+    if isinstance(node, ast.Subscript):
+        tab = node.value
+    elif isinstance(node, ast.Call) and isinstance(node.func, ast.Attribute) and node.func.attr == "get" and len(node.args) == 1 and not node.keywords:
+        tab = node.func.value
+    if tab is None:
+        return None
+    name = tab.attr if isinstance(tab, ast.Attribute) and isinstance(tab.value, ast.Name) else None
+    if name is None:
+        return None
+    defs = [st.value for st in cls.body if isinstance(st, ast.Assign) and any(isinstance(t, ast.Name) and t.id == name for t in st.targets)]
+    if len(defs) != 1 or not isinstance(defs[0], ast.Dict) or not defs[0].values \
+            or not all(isinstance(v, ast.Constant) and isinstance(v.value, str) for v in defs[0].values):
+        return None
+    return {v.value for v in defs[0].values}, {name}
+
+
+def unroll_static_loops(func, tables: dict | None = None, ctables: dict | None = None, cname: str | None = None):
+    """ctables: class-level literal tables (class_tables) of the class `cname` whose method `func` is"""
     lits = {}
     if tables:
         # a module-level table is visible unless the function binds the name itself (parameter, local, nested def)
@@ -315,7 +394,23 @@ def unroll_static_loops(func, tables: dict | None = None):
         own = {p.arg for p in a.posonlyargs + a.args + a.kwonlyargs} | ({a.vararg.arg} if a.vararg else set()) | ({a.kwarg.arg} if a.kwarg else set()) \
             | _stored(func.body)
         lits = {k: v for k, v in tables.items() if k not in own and not (set().union(*[_loaded(e) for e in v.elts]) & own)}
-    func.body = _unroll_block(func.body, lits)
+    attrs = {}
+    if ctables:
+        a = func.args
+        params = [p.arg for p in a.posonlyargs + a.args]
+        decs = {ast.unparse(d) for d in func.decorator_list}
+        bound = {p.arg for p in a.posonlyargs + a.args + a.kwonlyargs} | ({a.vararg.arg} if a.vararg else set()) | ({a.kwarg.arg} if a.kwarg else set()) \
+            | _stored(func.body)
+        recvs = set()
+        if params and "staticmethod" not in decs and params[0] not in _stored(func.body):
+            recvs.add(params[0])            # self / cls
+        if cname and cname not in bound:
+            recvs.add(cname)
+        for k, v in ctables.items():
+            if not (set().union(*[_loaded(e) for e in v.elts]) & bound):
+                for r in recvs:
+                    attrs[(r, k)] = v
+    func.body = _unroll_block(func.body, lits, attrs)
     return func
 
 
@@ -961,14 +1056,15 @@ def index_loops_to_enumerate(func):
     return func
 
 
-def normalize_function(func, tables: dict | None = None):
-    """the local normalisations (no knowledge of other functions needed); `tables`: module-level literal tables (module_tables)"""
+def normalize_function(func, tables: dict | None = None, ctables: dict | None = None, cname: str | None = None):
+    """the local normalisations (no knowledge of other functions needed); `tables`: module-level literal tables (module_tables);
+    `ctables`: class-level literal tables (class_tables) of the class `cname` the function is a method of"""
     try:
         specialise_dispatch(func)
         inline_local_defs(func)
         index_loops_to_enumerate(func)
         before = len(list(ast.walk(func)))
-        unroll_static_loops(func, tables)
+        unroll_static_loops(func, tables, ctables, cname)
         const_getattr(func)          # after unrolling: the name may come from a row of the unrolled table
         if len(list(ast.walk(func))) != before:
             # unrolling a table of closures / helper references turns them into direct calls: a second round inlines those
